@@ -727,6 +727,14 @@ func (q *checker) tcheckExprCall(n *a.Expr, depth uint32) error {
 	} else {
 		n.SetMType(oTyp)
 	}
+	// Within a pure function, anything reachable from its arguments (or from
+	// "this") is read-only, including what a call returns. Otherwise, e.g.
+	// "args.dst.since(mark: 0)", "args.pb.palette()" or "args.pb.plane(p: 0)"
+	// would let a pure function write to its caller's buffers.
+	if (q.astFunc != nil) && q.astFunc.Effect().Pure() &&
+		(n.MType().IsEitherSliceType() || n.MType().IsEitherTableType()) {
+		n.SetMType(n.MType().CloneReadOnly())
+	}
 	return nil
 }
 
